@@ -331,7 +331,12 @@ def plan_C05(run):
         apalache_inductive(run)
     r = run.model("reconnect", "MCReconnect", "MCReconnect_%s.cfg" % ("t" if run.thorough else "q"), workers=8, coverage=True,
                   exhaustive_note="all attempt histories up to the cfg's MaxLen over 9 attempt kinds")
-    scen = run.scen_file("reconnect", r.replay)
+    hist = r.replay
+    # long random behaviours of the same specification (TLC simulation mode), replayed as well
+    rs = run.model("reconnect-sim", "MCReconnect", "MCReconnect_sim.cfg", workers=1,
+                   extra=["-simulate", "num=%d" % (2000 if run.thorough else 150), "-depth", "41", "-seed", str(run.seed)])
+    hist = hist + rs.replay
+    scen = run.scen_file("reconnect", hist)
     tr = run.harness("reconnect", scen=scen)
     run.validate(tr, "TraceAuth")
 
